@@ -134,6 +134,9 @@ def _check_direction(res, m, grid, lo, hi, olo, ohi, tb, inverse, site, dtype, f
         # business; here only gross order violations count, scaled by the local slope of the inverse map
         sl = torch.exp(torch.maximum(ld[1:], ld[:-1]))
         noise = loose * torch.clamp(sl, min=1.0) + (1e-3 * (ohi - olo) if fam == "cub" else 0.0)
+        if fam == "lin":
+            # the piecewise-linear inverse is plain arithmetic (one subtraction, one division, one addition): rounding only
+            noise = 256 * u * torch.clamp(sl, min=1.0)
     if bool((dy < -noise).any()):
         i = int((dy < -noise).nonzero()[0])
         res.fail("not_monotone", site, "%s: f(%r)=%r > f(%r)=%r" % (d, float(grid[i]), float(y[i]), float(grid[i + 1]), float(y[i + 1])),
@@ -152,7 +155,7 @@ def _check_direction(res, m, grid, lo, hi, olo, ohi, tb, inverse, site, dtype, f
     smax = torch.exp(torch.maximum(ld[1:], ld[:-1]))
     allow = 4 * smax * (dx + 4 * ux) + 64 * u * (torch.clamp(smax, min=1.0) if inverse else 1.0) + ((1e-3 * (ohi - olo)) if (inverse and fam == "cub") else 0.0)
     close = dx <= 64 * torch.as_tensor(ux)   # only neighbours a few ulps apart probe continuity
-    bad = close & (dy.abs() > allow) & (not inverse)
+    bad = close & (dy.abs() > allow) & (not inverse)     # (an inverse legitimately jumps across a bin that is flat to working precision)
     if bool(bad.any()):
         i = int(bad.nonzero()[0])
         res.fail("discontinuous", site, "%s: |f(%r)-f(%r)| = %.3g for points %.3g apart (slope<=%.3g)" % (
